@@ -215,15 +215,20 @@ impl Config {
 
         let cfg_file = std::fs::read_to_string(&cfg_path)?;
         let cfg: serde_yaml::Value = serde_yaml::from_str(&cfg_file)?;
+        // Apply the options to a copy of the config, so that the config isn't left in a
+        // partially updated state (e.g. with a pattern list which doesn't match the compiled
+        // patterns) if an option is invalid.
+        let mut new = self.clone();
         for (k, v) in cfg
             .as_mapping()
             .ok_or(anyhow!("Expected reclass config to be a Mapping"))?
         {
             let kstr = serde_yaml::to_string(k)?;
             let kstr = kstr.trim();
-            self.set_option(&cfg_path, kstr, v, verbose)?;
+            new.set_option(&cfg_path, kstr, v, verbose)?;
         }
-        self.compile_ignore_class_notfound_patterns()?;
+        new.compile_ignore_class_notfound_patterns()?;
+        *self = new;
         Ok(())
     }
 
@@ -235,8 +240,13 @@ impl Config {
     /// Updates the saved ignore_class_notfound_regexp pattern list with the provided list and
     /// ensures that the precompiled RegexSet is updated to match the new pattern list.
     pub fn set_ignore_class_notfound_regexp(&mut self, patterns: Vec<String>) -> Result<()> {
+        // Compile the new patterns first, so that the pattern list and the compiled patterns
+        // remain unchanged if one of the new patterns is invalid.
+        let regexset = RegexSet::new(&patterns)
+            .map_err(|e| anyhow!("while compiling ignore_class_notfound regex patterns: {e}"))?;
         self.ignore_class_notfound_regexp = patterns;
-        self.compile_ignore_class_notfound_patterns()
+        self.ignore_class_notfound_regexset = regexset;
+        Ok(())
     }
 
     pub(crate) fn is_class_ignored(&self, cls: &str) -> bool {
